@@ -8,6 +8,10 @@ CHECKS = {
    technique="TLA+ spec Cmds.tla: TLC refinement check (binary/prefix search vs linear-scan definition) on every table + replay of every TLC table and seeded TLC histories on fast.Commands and Interp.Cmd",
    text="TLC exhaustively enumerates every command table over a name set sharing prefixes (2^11 quick, 2^16 thorough) and checks that the implementation-level lookup refines the linear-scan definition; every distinct table and tens of thousands of simulated add/del/lookup histories are replayed on the real fast.Commands and Interp.Cmd and compared lookup by lookup. Exhaustive inside the bound, which is the right level for a small pure data structure.",
    ref="§6 C37", note=TRUST + "; only the package-level table is constructible; built-in commands are looked up but not executed"),
+ "C07": dict(
+   technique="TLA+ spec Defer.tla (Go semantics of defer/panic/recover with lazily revealed programs): TLC BFS + simulation emit (program, event log, outcome); replayed event-by-event on the fast interpreter; Go gate compiles the same programs natively",
+   text="TLC enumerates every program up to the operation bound together with the event log and outcome Go prescribes (hundreds of thousands of states, tens of thousands of distinct programs; simulation for deeper programs over the full operation alphabet including executor phase 2) and checks the semantics' own invariants; every emitted program is run on the real interpreter and compared event by event; a seeded fraction (quick) or all (thorough) is also compiled and run natively so that the specification itself is pinned to Go.",
+   ref="§6 C07", note=TRUST + "; the Go toolchain as gate; call graph acyclic by construction; recover across compiled/interpreted frames excluded (documented limitation)"),
 }
 NA = {
  "C31": "no state or transition to model: the property equates ~150 generated data tables with the linked standard library's symbol universe; deciding it needs regenerate-and-compare, a different technique (DESIGN §7)",
